@@ -23,6 +23,7 @@ func init() {
 			"R4 every encoder walk (Message.SerializeTo, GroupedAVP.Serialize, Message.Len, GroupedAVP.Len) advances by (*AVP).Len(), which is header + Data.Len() + Data.Padding(), and for every data type Len()+Padding() is a multiple of 4 with Padding() < 4 (constants, or Padding() = round-up-4(x) − x for the same x Len() reports, decided for all x); " +
 			"R5 for every entry of datatype.Decoder the decoder, Serialize, Len and Padding agree: fixed-width types decode / write / report the same constant width with the same byte order, string-kinded types are converted in both directions with Len = len, delegating types inherit their delegate's facts, and len(Serialize()) is provably Len(); " +
 			"R6 AVPs unknown to the dictionary are carried as opaque data: the not-found exit yields the Unknown placeholder, its type decodes as the identity on bytes, and the AVP decoder gives up only when no dictionary entry at all was returned. " +
+			"R4 also demands that every value Message.Len / GroupedAVP.Len can return is the constant start (20 / 0) plus the sum of (*AVP).Len() over the receiver's current list (a remembered total or a sum less some term is refused). " +
 			"Not decided: equality of values and bytes as executed (NaN payloads, addresses whose family is neither 1 nor 2 but whose length is 4 or 16, generated dictionaries, 24-bit overflow).",
 		Rules: map[string]string{
 			"R1": "header: writer layout = reader layout",
